@@ -224,7 +224,7 @@ class JointDistribution:
         if isinstance(density, EvaluatedDensity):
             raise ValueError("Cannot add the sum of all evaluated densities to an EvaluatedDensity.")
 
-        density._constant += self._sum_evaluated_densities()
+        density._constant = density._constant + self._sum_evaluated_densities() # (out of place: the constant may be an array shared with the density this one was copied from)
         return density
 
     def _as_stacked(self) -> _StackedJointDistribution:
